@@ -251,7 +251,7 @@ EXTRA = {
     'C17': 'Also: descriptor rows designate the member they name (R05.2) and the archive heartbeat advances the deadline before it writes (R06.5), so a stored snapshot equals the live state. R06.8 (the index holds every snapshot) and the operand discipline of reb_particle_diff (R17.5).',
     'C18': 'Also: no parameter of a function of the Python layer is ignored or overwritten on every path before its first read (R18.8, 10 frozen exceptions); the shortcut names of Simulation.integrator, in if-chain or table form, leave pairwise different configurations (R18.9).',
     'C12': 'Also: transformation calls selected by a coordinate-system constant belong to one system per constant at every site (R12.6).',
-    'C19': 'Also: the one capacity counter the serialiser lowers is lowered to a size the owner\'s growth test itself asks for (R19.4). The owner of a capacity the serialiser trims tests it with capacity < need only, the one test whose outcome is the same before and after trimming (R19.4).',
+    'C19': 'Also: the one capacity counter the serialiser lowers is lowered to a size the owner\'s growth test itself asks for (R19.4). The owner of a capacity the serialiser trims tests it with capacity < need only, the one test whose outcome is the same before and after trimming (R19.4). A descriptor handed to fdopen is closed once, through its stream: no close() of a descriptor whose stream was fclose()d (R19.6).',
     'C20': 'Also: in reb_simulation_move_to_com the totals come from completed loops over the right member and the per-particle summands of the first- and second-order shifts equal '
            'the first and mixed second derivative of sum m x / sum m (R20.7); units_convert_particle converts every dimensional field, also when written as a setattr loop. No parameter of the scaling/rotation wrappers is ignored or overwritten before it is read (R20.8); the inline conversions of the Python front end carry G exactly as the C ones do (R11.4, R11.8); every quaternion returned by reb_rotation_init_from_to is built from normalised vectors (unit typestate, R20.9); reb_rotation_to_orbital returns angles whose sum / difference reproduce the two arctangents that determine the rotation in each of its three branches, given the half-angle form of reb_rotation_init_orbit derived symbolically (R20.10).',
 }
